@@ -320,6 +320,39 @@ def drv_electre(tier, rng):
     return groups
 
 
+def drv_electre_dom(tier, rng):
+    """dominated neighbours (C06): a few alternatives on a 0..10 grid with veto-carrying criteria whose differences often
+    equal a threshold exactly, plus 'shadows' - copies of an alternative made slightly worse on some criteria - so that
+    every instance holds dominated pairs whose members differ by one or two steps next to further alternatives.  The
+    family is screened: all cases run through the real code, TLC judges the suspicious ones and a sample."""
+    groups = []
+    for t in range(50000):       # one chunk
+        m = rng.randint(2, 3)
+        nb = rng.randint(2, 4)
+        req, f = electre_req(rng, nb, m, list(range(0, 11)), 0, veto_heavy=rng.random() < 0.5)
+        for j, c in enumerate(req['criteria']):
+            e = req['methodParameters']['electreCriteria'][c['id']]
+            if 'v' not in e and rng.random() < 0.7:
+                pb = e.get('p', e.get('q', {'b': 0}))['b'] // UNIT
+                if 'p' not in e:
+                    e['p'] = {'b': UNIT * (pb + 1)}
+                    pb += 1
+                e['v'] = {'b': UNIT * (pb + rng.choice([2, 3, 4, 6]))}
+        ka = req['knownAlternatives']
+        for sidx in range(rng.randint(1, 2)):
+            src = rng.choice(ka[:nb])
+            sh = {'id': 'z%d' % sidx, 'criteria': dict(src['criteria'])}
+            for c in req['criteria']:
+                if rng.random() < 0.6:
+                    d = UNIT * rng.choice([1, 1, 2])
+                    sh['criteria'][c['id']] += d if c.get('type', 'gain') == 'cost' else -d
+            ka.append(sh)
+            req['choseToMake'].append(sh['id'])
+        rng.shuffle(req['choseToMake'])
+        groups.append([base_case(req, sa=f[2], sb=f[3], failprop='C05', screen='c06', via='lib')])
+    return groups
+
+
 # ---------------------------------------------------------------- bias pipeline
 def pcase(req, **kw):
     c = {'fam': 'pipeline', 'unit': pipeline.PU, 'hook': True, 'probe': True, 'bias': True, 'via': 'lib',
@@ -861,6 +894,10 @@ FAMILIES = {
         'mc_sample': {'quick': 600, 'thorough': 20000}, 'mc_workers': 12, 'mc_timeout': {'thorough': 5400},
         'mode': 'decide', 'trace': 'Trace_Decide', 'drivers': [drv_electre], 'chunk_lines': 80, 'trace_chunks': 12,
     },
+    'electre_dom': {
+        'mode': 'decide', 'trace': 'Trace_Decide', 'drivers': [drv_electre_dom], 'screen': 'c06',
+        'screen_chunks': {'quick': 2, 'thorough': 20}, 'screen_keep': {'quick': 300, 'thorough': 2000}, 'chunk_lines': 80, 'trace_chunks': 12,
+    },
     'pipeline': {
         'mc': 'MC_Decision', 'mc_cfg': {'quick': 'MC_Decision_quick.cfg', 'thorough': 'MC_Decision_thorough.cfg'},
         'mc_sample': {'quick': 100, 'thorough': 3000}, 'mc_workers': 12,
@@ -953,7 +990,7 @@ PROPS = {
             'rule': 'non-trivial = request in which a fatigue bias fired; distinct by request'},
     'C07': {'level_text': "Decision.tla (abstract pipeline: criteria / value cover / parameter cover / split / touched values) model-checked for all bias lists up to length 2-3 with Coherent, SplitStable, Persistence; every emitted list x 7 methods plus seeded random pipelines (length <= 4, all options) and the repository's examples run through the library with hook H1; TLC validates after every bias: values and parameters cover exactly the current criteria (probe Evaluate/RankCriteriaAscending on a copy), split unchanged, criteria delta = reported delta, untouched values persist, status 200", 'level_note': 'coherence of private parameter types is observed operationally (probe) and through reflective dumps; a bias removing every criterion is outside the domain', 'families': ['pipeline'], 'nontrivial': nt_pipeline,
             'rule': 'non-trivial = request in which at least one bias fired; distinct by request'},
-    'C06': {'level_text': 'dominance, identical-alternatives, listing-order and weight-scaling relations evaluated by TLC on real ELECTRE III runs (each instance with a permuted twin and twins with all k x2 and x1/4); the same lemmas (CredOfDominator, DominanceLemma, IdenticalLemma, ScaleLemma) are invariants of MC_ElectreE on the definition', 'level_note': 'relations are comparison-only (float-safe); a change that alters indices without breaking these relations is reported by C05, not here', 'families': ['electre'], 'nontrivial': nt_electre2,
+    'C06': {'level_text': 'dominance, identical-alternatives, listing-order and weight-scaling relations evaluated by TLC on real ELECTRE III runs (each instance with a permuted twin and twins with all k x2 and x1/4); the same lemmas (CredOfDominator, DominanceLemma, IdenticalLemma, ScaleLemma) are invariants of MC_ElectreE on the definition; a screened family runs 100 000 (thorough: 1 000 000) instances with dominated neighbours (shadow alternatives one or two steps worse, differences equal to thresholds) through the real code, a Go-side pre-check selects the suspicious ones and TLC judges those plus an even sample', 'level_note': 'relations are comparison-only (float-safe); a change that alters indices without breaking these relations is reported by C05, not here; the Go-side pre-check of the screened family only selects cases, every verdict is TLC\'s', 'families': ['electre', 'electre_dom'], 'nontrivial': nt_electre2,
             'rule': 'non-trivial = accepted ELECTRE III request whose two preorders are not both a single class; distinct by request'},
     'C05': {'level_text': 'exact-rational reference model Electre!CredMatrix + Electre!DistilP: stage 2 on ALL 3x3 credibility matrices over a quarter grid and random 4..6-alternative matrices over sixteenths through RankAscending/RankDescending/EvaluateRanking; stage 1 (credibility matrix via hook H2) and end-to-end indices/links on TLC-enumerated and random threshold configurations through MakeDecision; MC_Electre/MC_ElectreE check classes consecutive, progress, cut levels never rise, stepwise = recursive definition', 'level_note': "instances whose exact comparison ties involve non-dyadic numbers are flagged fragile by the spec and excluded from index equality (float arithmetic); constant thresholds only (the property's domain)", 'families': ['electre_s2', 'electre'], 'nontrivial': nt_electre2,
             'rule': 'non-trivial = instance whose two preorders are not both a single class; distinct by instance'},
